@@ -744,7 +744,8 @@ theorem ring_lifetime_values_repaired {α : Type} (v : VRing α) (x d : α) :
 `n + 1 < 2^32` and run ANY script of `push`/`emplace` (also `push(head_place())`,
 the argument aliasing the slot), `pop`, `clear`, `resize`,
 copy construction, move construction and copy assignment to another ring
-(`unbounded_array::operator=`), carrying on with the new object —
+(`unbounded_array::operator=`), carrying on with the new object, and (round 3b, repair
+6d59c1e) pushes whose element constructor THROWS and is caught by the caller —
 contract-respecting or not: push on a full ring, pop on an empty one included —
 and let the last object go out of scope.  Then no operation faults, and
 * no object was ever constructed over a living object (`overLive = 0`),
@@ -764,10 +765,10 @@ theorem ring_lifetime_exactly_once {α : Type} (dflt : α) (n : Nat) (hn : n + 1
   obtain ⟨h1, h2, h3, h4, h5⟩ := VRing.invalidate_good g
   exact ⟨v, e, g.live, h1, h2, h3, h4, h5⟩
 
-example : ∀ op ∈ [VOp.push (1 : Int), .pushSelf, .pop, .pop, .clear, .resize 5, .copy, .move, .assign 3], op.ok := by
+example : ∀ op ∈ [VOp.push (1 : Int), .pushSelf, .pop, .pop, .clear, .resize 5, .copy, .move, .assign 3, .pushThrow], op.ok := by
   intro op h
   simp only [List.mem_cons, List.not_mem_nil, or_false] at h
-  rcases h with rfl | rfl | rfl | rfl | rfl | rfl | rfl | rfl | rfl <;> simp [VOp.ok]
+  rcases h with rfl | rfl | rfl | rfl | rfl | rfl | rfl | rfl | rfl | rfl <;> simp [VOp.ok]
 
 /-- what one `push` / `pop` does to the objects: in a ring whose slots all live,
 exactly one object is destroyed and exactly one is constructed (in the same slot),
@@ -1165,8 +1166,8 @@ theorem ring_get_head_place_moved {α : Type} (dflt : α) (t : TRing α) (q : Li
     TRing.resize dflt t.move.2 n = TRing.mk' dflt n :=
   ⟨fun i hi => h.2.2.2 i hi, rfl, rfl⟩
 
-/-! ## 26. round 3b: where the repaired `push` / `emplace` still leave a slot without
-a living object — `emplace` with an aliasing argument, a throwing copy constructor -/
+/-! ## 26. round 3b: `emplace` with an aliasing argument (still reads a dead object: finding),
+a throwing element constructor (repaired 6d59c1e) -/
 
 /-- ring_emplace_alias_exact: `r.emplace(r.head_place())` (the argument aliases the
 head slot; `emplace` has no aliasing test, `push` has one) on a ring whose slots
@@ -1193,41 +1194,63 @@ theorem ring_emplace_alias_witness :
     ((VRing.mk' (0 : Int) 1).pushSelf.destroy.deadRead = 0) := by
   decide
 
-/-- ring_push_throwing_copy_exact: exception safety of the repaired `push(obj)`,
-`place->~T(); new (place) T(obj);`, when `T(obj)` throws, on a ring whose slots
-all hold living objects, in ANY fill state.
-* STRONG guarantee for everything C03 speaks about: head, tail, size and every
-  stored value are what they were (`v'.t = v.t`: avail, room, tail(), last(),
-  get_last … all answer as before the call).
-* The BASIC guarantee fails for the objects: the head slot — and only it — is left
-  without a living object; no forbidden event has happened YET.
-* Scope exit then runs exactly one destructor on the dead slot (one destructor
-  call more than constructor calls); a retried `push(x)` instead runs that one
-  destructor on the dead slot, stores `x` exactly as the push on the original ring
-  would have, and every slot holds a living object again.
-(Finding `C03-ring-push-throwing-copy`.) -/
-theorem ring_push_throwing_copy_exact {α : Type} (v : VRing α) (g : VRing.Good v) (x : α) :
-    ∃ v', v.pushThrow = some v' ∧ v'.t = v.t ∧
+/-- ring_push_throwing_copy_exact (the code AFTER the repair 6d59c1e: `try { new (place)
+T(obj); } catch (...) { new (place) T(); throw; }`): exception safety of `push(obj)` /
+`emplace(args)` when the element's constructor throws, on a ring whose slots all hold
+living objects, in ANY fill state.
+* STRONG guarantee for everything C03 speaks about: head, tail and size are what
+  they were, and whatever queue the ring stored it still stores (`Abs` for the same
+  `q`: avail, room, tail(), last(), get_last … all answer as before the call); the only
+  slot written is the free head slot, which now holds `T()`.
+* BASIC guarantee for the objects: every slot holds a living object again, no
+  forbidden event, exactly one destructor and one constructor call.
+`ring_lifetime_exactly_once` (§16) now quantifies over scripts that contain such
+throwing pushes (`VOp.pushThrow`). -/
+theorem ring_push_throwing_copy_exact {α : Type} (v : VRing α) (g : VRing.Good v) (d : α) :
+    ∃ v', v.pushThrow d = some v' ∧ v'.t.r = v.t.r ∧
+      (∀ i, i ≠ v.t.r.head.toNat → v'.t.buf[i]? = v.t.buf[i]?) ∧
+      (∀ q, Abs v.t.r v.t.buf q → Abs v'.t.r v'.t.buf q) ∧
+      v'.live = List.replicate v'.t.buf.length true ∧
+      v'.overLive = 0 ∧ v'.deadDtor = 0 ∧ v'.deadRead = 0 ∧
+      v'.ctor = v.ctor + 1 ∧ v'.dtor = v.dtor + 1 := by
+  obtain ⟨v', e, g', hr, hb, hc, hd⟩ := VRing.pushThrow_good d g
+  refine ⟨v', e, hr, ?_, ?_, g'.live, g'.over, g'.dead, g'.read, hc, hd⟩
+  · intro i hi
+    rw [hb, List.getElem?_set_ne (Ne.symm hi)]
+  · intro q hq
+    rw [hr, hb]
+    exact abs_set_head d hq
+
+example : VRing.Good (VRing.mk' (0 : Int) 2) := VRing.mk'_good 0 2 (by decide)
+
+/-- what was wrong BEFORE 6d59c1e (`place->~T(); new (place) T(obj);` without a handler):
+values and indices untouched (`v'.t = v.t`), but the head slot — and only it — was left
+without a living object; scope exit then ran exactly one destructor on the dead slot
+(one destructor call more than constructor calls), a retried `push(x)` ran that one
+destructor on the dead slot before it stored `x`. -/
+theorem ring_push_throwing_copy_orig {α : Type} (v : VRing α) (g : VRing.Good v) (x : α) :
+    ∃ v', v.pushThrowOrig = some v' ∧ v'.t = v.t ∧
       (∀ i, v'.live.getD i false = (decide (i < v.t.buf.length) && decide (i ≠ v.t.r.head.toNat))) ∧
       v'.overLive = 0 ∧ v'.deadDtor = 0 ∧ v'.deadRead = 0 ∧
       v'.destroy.deadDtor = 1 ∧ v'.destroy.dtor = v'.destroy.ctor + 1 ∧
       ∃ v'', v'.push x = some v'' ∧ v.t.push x = some v''.t ∧ v''.deadDtor = 1 ∧ v''.overLive = 0 ∧
         v''.live = List.replicate v''.t.buf.length true := by
-  obtain ⟨v', e, ht, hl, h1, h2, h3, -, -⟩ := VRing.pushThrow_good g
-  obtain ⟨a1, a2, v'', e2, b1, b2, b3, b4⟩ := VRing.pushThrow_after g e x
+  obtain ⟨v', e, ht, hl, h1, h2, h3, -, -⟩ := VRing.pushThrowOrig_spec g
+  obtain ⟨a1, a2, v'', e2, b1, b2, b3, b4⟩ := VRing.pushThrowOrig_after g e x
   refine ⟨v', e, ht, ?_, h1, h2, h3, a1, a2, v'', e2, b4, b1, b2, b3⟩
   intro i
   rw [hl, List.getD_eq_getElem?_getD, List.getElem?_set]
   by_cases hi : i < v.t.buf.length <;> by_cases hh : v.t.r.head.toNat = i <;>
     simp [hi, hh, List.getElem?_replicate, Ne.symm, eq_comm]
 
-example : VRing.Good (VRing.mk' (0 : Int) 2) := VRing.mk'_good 0 2 (by decide)
-
 /-- `ring<T>(1); push(x) with a throwing T(x); ~ring`: (constructed over a living
-object, destructor on a dead slot, constructor calls, destructor calls) = (0, 1, 2, 3) -/
-theorem ring_push_throwing_copy_witness :
-    ((VRing.mk' (0 : Int) 1).pushThrow.map fun v =>
-      (v.destroy.overLive, v.destroy.deadDtor, v.destroy.ctor, v.destroy.dtor)) = some (0, 1, 2, 3) := by
+object, destructor on a dead slot, constructor calls, destructor calls) was (0, 1, 2, 3),
+is (0, 0, 3, 3) -/
+theorem ring_push_throwing_copy_orig_witness :
+    ((VRing.mk' (0 : Int) 1).pushThrowOrig.map fun v =>
+      (v.destroy.overLive, v.destroy.deadDtor, v.destroy.ctor, v.destroy.dtor)) = some (0, 1, 2, 3) ∧
+    (((VRing.mk' (0 : Int) 1).pushThrow 0).map fun v =>
+      (v.destroy.overLive, v.destroy.deadDtor, v.destroy.ctor, v.destroy.dtor)) = some (0, 0, 3, 3) := by
   decide
 
 /-! ## 27. round 3b: `unbounded_array::fill / clear / begin / end / operator=` -/
